@@ -85,6 +85,7 @@ class Sandbox:
         # Temporary Variables
         self._temporary_variables = set()
         self._backup_variables = {}
+        self._installed_builtins = {}
         # Modules
         self._module_overrides = {}
         self.modules = SandboxModules()
@@ -545,16 +546,19 @@ class Sandbox:
 
     def _mock_builtins(self, data: dict, builtins: dict):
         builtins = builtins
+        # What an earlier execution put into the student's globals; a global
+        # of the same name that is anything else was defined by the student
+        # (e.g. their own ``def open(door)``) and stays theirs.
+        installed = self._installed_builtins if data is self.data else {}
         for name, value in builtins.items():
             if value is True:
-                data['__builtins__'][name] = mocked.ORIGINAL_BUILTINS[name]
-                data[name] = mocked.ORIGINAL_BUILTINS[name]
+                value = mocked.ORIGINAL_BUILTINS[name]
             elif value is False:
-                data['__builtins__'][name] = mocked.disabled_builtin(name)
-                data[name] = mocked.disabled_builtin(name)
-            else:
-                data['__builtins__'][name] = value
+                value = mocked.disabled_builtin(name)
+            data['__builtins__'][name] = value
+            if name not in data or data[name] is installed.get(name):
                 data[name] = value
+                installed[name] = value
 
     def _start_mocking(self, context: SandboxContext):
         """ Mock input, output, builtins, and modules """
